@@ -8,8 +8,9 @@ export RUSTC_BOOTSTRAP=1 CARGO_NET_OFFLINE=true
 log="$dir/confirm.log"; : > "$log"
 if [ ! -d $wt ]; then git -C /repo worktree add -q --detach $wt HEAD; fi
 if [ ! -d $wt/target ]; then cp -r /tmp/wt-base/target $wt/target; fi
-cp /tmp/wt-base/.cargo/config.toml $wt/.cargo/config.toml; git -C $wt update-index --assume-unchanged .cargo/config.toml
 cd $wt && git checkout -q -- . && git clean -qfd -e target && git checkout -q --detach "$(git -C /repo rev-parse HEAD)"
+# (after the checkout, which reverts the file even though it is flagged assume-unchanged)
+cp /tmp/wt-base/.cargo/config.toml $wt/.cargo/config.toml; git -C $wt update-index --assume-unchanged .cargo/config.toml
 cp "$dir/demo.rs" tests/seed_demo.rs
 echo "== demo on unmodified tree" >> "$log"
 timeout 3000 cargo test --offline --test seed_demo >> "$log" 2>&1; base=$?
@@ -19,6 +20,6 @@ timeout 3000 cargo test --offline --test seed_demo >> "$log" 2>&1; withp=$?
 rm -f tests/seed_demo.rs
 echo "== existing suite with patch" >> "$log"
 timeout 3000 cargo test --workspace --no-fail-fast --offline >> "$log" 2>&1; suite=$?
-git checkout -q -- .
+git checkout -q -- . ; cp /tmp/wt-base/.cargo/config.toml $wt/.cargo/config.toml
 echo "$id: demo_unmodified_exit=$base demo_patched_exit=$withp suite_patched_exit=$suite" | tee -a "$log"
 if [ "${REMOVE:-0}" = 1 ]; then cd /; git -C /repo worktree remove --force $wt; fi
